@@ -41,6 +41,11 @@ CHECKS = {
         technique="SMT (z3 nonlinear integer arithmetic) Hoare contracts over segments of the emitted WideRatio TEAL at full 64-bit width + whole-program bit-vector equivalence at narrow word widths; models replayed on the emitted code",
         text="For every (|N|,|D|) in 1..6 x 1..6 the emitted op stream is cut at the factor pushes and z3 (NIA, full 64-bit width, all factor values, arbitrary stack below) proves each segment's contract: first segment establishes hi*2^64+lo = a*b, each step segment fails iff the running product reaches 2^128 and otherwise extends it exactly, the final segment fails iff the denominator is 0 or the quotient needs more than 64 bits and otherwise leaves floor(N/D). Chaining over the number of factors is an ordinary induction that is written out, not mechanised. Whole emitted programs are additionally proved equivalent to the specification over bit-vectors at narrow word widths.",
         note="Trusted: z3 NIA; TEAL semantics of the dozen ops involved (verif/checks/c16.py); the induction over segments. Factors are template constants; factor sub-expressions are C01's business."),
+    "C17": dict(
+        category="model_checking", design_ref="DESIGN.md 3/C17",
+        technique="z3 path query per load over the recipe's own control-flow graph (exists a syntactic path from the routine entry to the load with no store of the variable, path length bound = number of nodes, complete) compared with the compiler's verdict and the load it names; SymAVM with uninitialised-slot tracking on accepted programs",
+        text="For every enumerated placement of stores and loads of routine-local variables (automatically and explicitly numbered) in branches, Cond arms, zero-iteration loops, Break/Continue exits and early returns, in main and in subroutines: if z3 finds a syntactic path to a load along which the variable is never stored, the compiler must reject, and the load named by its error must be one with such a path (also accepting loads in code after Return/Break/Continue, which the compiler treats as reachable). For accepted programs SymAVM shows that no feasible path of the emitted TEAL reads a slot that was never written (within the loop bound); counterexamples are replayed concretely.",
+        note="Trusted: the recipe CFG construction (verif/recipe/rcfg.py), z3. The syntactic-path side is complete for each enumerated program; the run-time side is bounded (K=2). Variables passed by reference or reached through DynamicScratchVar are excluded; rejections without an unwritten path are allowed (the compiler may be conservative) and only counted."),
 }
 
 NOT_APPLICABLE = {
